@@ -781,32 +781,10 @@ func init() {
 			if i%97 == 96 {
 				w = []int{2047, 2048, 2049, 4100}[r.Intn(4)] // around the wrapper's stack-buffer limit
 			}
-			cw := (w + 1) / 2
-			v := &kvec{Dom: "std"}
 			mode := (i / len(ws)) % 6
 			hasBot, hasATop, hasABot := mode != 1, mode == 2 || mode == 3, mode == 2 || mode == 4
 			pc := []string{"rand", "rand", "zero", "max", "near0", "near255", "mid"}[r.Intn(7)]
-			v.Class = fmt.Sprintf("w=%d/bot=%v/a=%v%v/%s", w, hasBot, hasATop, hasABot, pc)
-			mk := func(k, n int, fill bool) {
-				v.B[k] = r.Bytes(n + 24)
-				v.Off[k], v.Len[k] = 8+r.Intn(8), n
-				if fill {
-					fillPix(r, pc, v.B[k], v.Off[k], n, n, 1)
-				}
-			}
-			mk(0, w, pc != "rand")
-			mk(1, w, pc != "rand")
-			for k := 2; k <= 5; k++ {
-				mk(k, cw, pc != "rand")
-			}
-			mk(6, 4*w, false)
-			mk(7, 4*w, false)
-			mk(8, w, false)
-			mk(9, w, false)
-			v.Nil[1], v.Nil[7] = !hasBot, !hasBot
-			v.Nil[8], v.Nil[9] = !hasATop, !hasABot
-			v.I[0] = w
-			return v
+			return upsampleVec(r, w, hasBot, hasATop, hasABot, pc)
 		},
 		run: func(fn any, v *kvec) *kout {
 			o := v.fresh()
@@ -822,7 +800,7 @@ func init() {
 				}
 				return hx(in.sl(v, k))
 			}
-			if v.I[0] > 300 {
+			if v.I[0] > upsampleModelMaxW {
 				return
 			}
 			ops = append(ops, fmt.Sprintf("k_upsample %d %s %s %s %s %s %s %s %s", v.I[0], h(0), h(1), h(2), h(3), h(4), h(5), h(8), h(9)))
@@ -949,6 +927,89 @@ func init() {
 	}
 }
 
+// upsampleModelMaxW: widest row handed to the Lean reference (k_upsample has no limit of its own; the line
+// of a 4100-pixel pair is about 100 kB).
+const upsampleModelMaxW = 5000
+
+// upsampleVec builds one vector of the fancy upsampler: B0 topY, B1 botY, B2 topU, B3 topV, B4 botU, B5 botV,
+// B6 topDst, B7 botDst, B8 aTop, B9 aBot; I0 = width.  Content class "uvramp": luma in the middle of the range
+// and chroma that changes with x in both planes and both rows (period prime to every power of two, so that
+// neighbouring packed-UV entries differ and so do entries 1024, 2048 or 4096 columns apart).
+func upsampleVec(r *RNG, w int, hasBot, hasATop, hasABot bool, pc string) *kvec {
+	cw := (w + 1) / 2
+	v := &kvec{Dom: "std"}
+	v.Class = fmt.Sprintf("w=%d/bot=%v/a=%v%v/%s", w, hasBot, hasATop, hasABot, pc)
+	mk := func(k, n int, fill bool) {
+		v.B[k] = r.Bytes(n + 24)
+		v.Off[k], v.Len[k] = 8+r.Intn(8), n
+		if fill {
+			fillPix(r, pc, v.B[k], v.Off[k], n, n, 1)
+		}
+	}
+	fill := pc != "rand" && pc != "uvramp"
+	mk(0, w, fill)
+	mk(1, w, fill)
+	for k := 2; k <= 5; k++ {
+		mk(k, cw, fill)
+	}
+	if pc == "uvramp" {
+		for k := 0; k <= 1; k++ {
+			for x := 0; x < w; x++ {
+				v.B[k][v.Off[k]+x] = byte(96 + (x*3+k*17)%64)
+			}
+		}
+		u0, v0, du, dv := r.Intn(251), r.Intn(241), 1+r.Intn(9), 1+r.Intn(9)
+		for x := 0; x < cw; x++ {
+			v.B[2][v.Off[2]+x] = byte((u0 + 7*x) % 251)
+			v.B[3][v.Off[3]+x] = byte(250 - (v0+5*x)%241)
+			v.B[4][v.Off[4]+x] = byte((u0 + du + 7*x) % 251)
+			v.B[5][v.Off[5]+x] = byte(250 - (v0+dv+5*x)%241)
+		}
+	}
+	mk(6, 4*w, false)
+	mk(7, 4*w, false)
+	mk(8, w, false)
+	mk(9, w, false)
+	v.Nil[1], v.Nil[7] = !hasBot, !hasBot
+	v.Nil[8], v.Nil[9] = !hasATop, !hasABot
+	v.I[0] = w
+	return v
+}
+
+// The deterministic wide vectors of the fancy upsampler (threshold cases of thresholds.go: 2048 = stack vs heap
+// packed-UV scratch when a line PAIR is converted, 4096 = the same for a single line): every width around the two
+// limits x {line pair, single line} x alpha modes x {random bytes, chroma ramp along the row}.  They follow the
+// random vectors of the kernel (indices >= kernelCasesBase) and are compared exactly like them: AVX2 / SSE2 /
+// portable Go in process, the purego and 386 children, and the Lean reference.
+var upsampleWideWidths = []int{2047, 2048, 2049, 2050, 4095, 4096, 4097, 4100}
+
+// {hasBot, hasATop, hasABot}
+var upsampleWideModes = [][3]bool{{true, false, false}, {false, false, false}, {true, true, true}, {true, true, false}, {true, false, true}, {false, true, false}}
+
+var upsampleWideContent = []string{"rand", "uvramp"}
+
+func upsampleWideCount() int {
+	return len(upsampleWideWidths) * len(upsampleWideModes) * len(upsampleWideContent)
+}
+
+func upsampleWideVec(r *RNG, j int) *kvec {
+	w := upsampleWideWidths[j%len(upsampleWideWidths)]
+	j /= len(upsampleWideWidths)
+	m := upsampleWideModes[j%len(upsampleWideModes)]
+	j /= len(upsampleWideModes)
+	v := upsampleVec(r, w, m[0], m[1], m[2], upsampleWideContent[j%len(upsampleWideContent)])
+	v.Class += "/threshold"
+	return v
+}
+
+// upsampleWideTag names the threshold a wide width belongs to.
+func upsampleWideTag(w int) string {
+	if w <= 3000 {
+		return "threshold:2048width"
+	}
+	return "threshold:4096width"
+}
+
 func b2iK(b bool) int {
 	if b {
 		return 1
@@ -1026,10 +1087,14 @@ func kernelCases(tier string) int {
 	return 420
 }
 
-// casesFor: the random/corner cases of every kernel plus, for the quantiser, the sweep over all 128 matrices.
+// casesFor: the random/corner cases of every kernel plus, for the quantiser, the sweep over all 128 matrices and,
+// for the fancy upsampler, the deterministic wide vectors.
 func casesFor(k kentry, tier string) int {
-	if k.Sig == "quant" {
+	switch k.Sig {
+	case "quant":
 		return kernelCases(tier) + quantSweepCount()
+	case "upsample":
+		return kernelCases(tier) + upsampleWideCount()
 	}
 	return kernelCases(tier)
 }
@@ -1040,6 +1105,9 @@ func kvecFor(seed uint64, k kentry, i int) *kvec {
 	}
 	h := fnv1a([]byte(k.Name))
 	r := NewRNG(seed^h, uint64(i))
+	if k.Sig == "upsample" && i >= kernelCasesBase {
+		return upsampleWideVec(r, i-kernelCasesBase)
+	}
 	v := ksigs[k.Sig].gen(k.Name, r, i)
 	return v
 }
@@ -1246,7 +1314,11 @@ func kernelLevel(rep *Report) error {
 					}
 				}
 			}
-			if i < modelCap || i >= kernelCasesBase && i%8 == 0 || rep.Tier == "thorough" && i%4 == 0 {
+			wideUp := k.Sig == "upsample" && i >= kernelCasesBase
+			if wideUp {
+				rep.Count(upsampleWideTag(v.I[0]))
+			}
+			if i < modelCap || i >= kernelCasesBase && i%8 == 0 || wideUp || rep.Tier == "thorough" && i%4 == 0 {
 				var o *kout
 				func() {
 					defer func() { recover() }()
